@@ -16,7 +16,33 @@ PROPERTY = "C04"
 LEVEL = "exploration"
 
 
+def make_directed(row, case):
+    """
+    a homonuclear diatomic with a LONG bond (Cl-Cl 1.99 A, C-C 1.53 A) laid along a reciprocal axis, i.e. perpendicular to a
+    cell face, with its first atom a hair inside that face and the second one outside: the periodic bond that crosses
+    the face as steeply as possible
+    """
+    ops = [symm.decode(c) for c in row["symops"]]
+    d = case["directed"]
+    cell = mol.scaled_cell(row["number"], row["choice"], len(ops), 1, case.get("cellvar", 0))
+    M = lattice.cell_matrix(*cell)
+    Mi = np.linalg.inv(M)
+    astar = Mi[:, d["axis"]] / np.linalg.norm(Mi[:, d["axis"]])
+    f1 = np.array([0.47, 0.31, 0.59])
+    f1[d["axis"]] = 0.004 if d["side"] < 0 else 0.996
+    length = {"Cl": 1.99, "C": 1.53, "S": 2.05}[d["element"]]
+    p1 = f1 @ M
+    p2 = p1 + d["side"] * length * astar
+    frac = np.array([p1, p2]) @ Mi
+    if d.get("swap"):
+        frac = frac[::-1]
+    asym = {"symbols": [d["element"]] * 2, "frac": frac, "molidx": [0, 0], "bonds": [(0, 1)], "cell": cell, "M": M}
+    return ops, cell, asym, mol.images(ops, asym)
+
+
 def make(row, case):
+    if case.get("directed"):
+        return make_directed(row, case)
     ops = [symm.decode(c) for c in row["symops"]]
     zk = case["zkind"]
     cell = mol.scaled_cell(row["number"], row["choice"], len(ops), len(mol.ZPRIME[zk]), case.get("cellvar", 0))
@@ -105,8 +131,8 @@ def check_case(part, row, case):
         cover = np.concatenate([np.asarray(u.properties["asymmetric_unit_atoms"]) for u in uniq])
         if sorted(cover.tolist()) != list(range(len(asym["symbols"]))):
             part.fail("unique-cover:%s" % key_suffix, "symmetry-unique molecules do not cover every asymmetric-unit atom exactly once in %s" % sk, case)
-        if len(uniq) != len(mol.ZPRIME[zk]):
-            part.fail("unique-count:%s" % key_suffix, "%d symmetry-unique molecules, expected %d in %s" % (len(uniq), len(mol.ZPRIME[zk]), sk), case)
+        if len(uniq) != (1 if zk == "directed" else len(mol.ZPRIME[zk])):
+            part.fail("unique-count:%s" % key_suffix, "%d symmetry-unique molecules, expected %d in %s" % (len(uniq), 1 if zk == "directed" else len(mol.ZPRIME[zk]), sk), case)
         for m in c.unit_cell_molecules():
             k = m.properties.get("asym_mol_idx")
             if k is None or not (0 <= k < len(uniq)):
@@ -174,12 +200,34 @@ def plan(row, tier, seed, full):
     else:
         centres = [(0.137, 0.289, 0.611), (0.983, 0.289, 0.017), (0.983, 0.983, 0.983), (0.611, 0.017, 0.137)]
         orients = (1,)
+    ncell = len(lattice.compatible_cells(row["number"], row["choice"]))
     for zk in zkinds:
         for ci, ce in enumerate(centres):
             for o in orients:
                 if full and (ci + o) % 3 and zk not in ("1", "2diff", "1ooc"):
                     continue  # deviation bound: other Z' kinds on a third of the grid
                 cases.append({"number": row["number"], "choice": row["choice"], "zkind": zk, "centre": list(ce), "orient": o, "seed": seed})
+    # cell axis: the long/oblique and (triclinic, monoclinic) the strongly oblique compatible cell; molecules placed on a finer
+    # grid of centres right at the cell faces, in all three orientations (bonds crossing a face at many angles)
+    face = (0.004, 0.031, 0.969, 0.996, 0.47)
+    for cv in range(1, ncell):
+        for zk in ("1", "1ooc", "2diff"):
+            cs = [c for c in itertools.product(face, repeat=3) if sum(1 for v in c if v != 0.47) in (1, 2)] if (row["number"] <= 15 and (full or row["index_in_number"] == 0)) \
+                else [(0.983, 0.289, 0.017), (0.137, 0.983, 0.611)]
+            for ci, ce in enumerate(cs):
+                for o in ((0, 1, 2) if row["number"] <= 15 else (1,)):
+                    if row["number"] <= 15 and not full and (ci + o) % 2:
+                        continue
+                    cases.append({"number": row["number"], "choice": row["choice"], "zkind": zk, "centre": list(ce), "orient": o, "seed": seed, "cellvar": cv})
+    # directed family: long bonds crossing each cell face perpendicularly, from either side, either atom order
+    if row["number"] <= 15 or row["number"] in (146, 148):
+        for cv in range(ncell):
+            for el in ("Cl", "C"):
+                for axis in (0, 1, 2):
+                    for side in (-1, 1):
+                        for swap in (False, True):
+                            cases.append({"number": row["number"], "choice": row["choice"], "zkind": "directed", "centre": [0, 0, 0], "orient": 0, "seed": seed,
+                                          "cellvar": cv, "directed": {"axis": axis, "side": side, "element": el, "swap": swap}})
     return cases
 
 
